@@ -569,3 +569,28 @@ Lemma lsp_range_exact r c er ec t :
 Proof.
   intros. unfold lsp_range, uint_pred; simpl. rewrite !Z.max_l by lia. reflexivity.
 Qed.
+
+(* ------------------------------------------------------------------ the fuel of [runes] always suffices *)
+
+Lemma rune_width_pos b : (1 <= rune_width b)%nat.
+Proof. unfold rune_width. destruct (b <? 192)%N, (b <? 224)%N, (b <? 240)%N; lia. Qed.
+
+Lemma runes_fuel_concat (fuel : nat) (s : str) :
+  (length s <= fuel)%nat -> concat (runes_fuel fuel s) = s.
+Proof.
+  revert s. induction fuel as [|f IH]; intros s Hlen.
+  - destruct s; [reflexivity | simpl in Hlen; lia].
+  - destruct s as [|b s']; [reflexivity|].
+    cbn [runes_fuel concat].
+    rewrite IH.
+    + apply firstn_skipn.
+    + rewrite skipn_length. pose proof (rune_width_pos b). simpl length in *. lia.
+Qed.
+
+(* no byte is lost: [runes] never runs out of fuel *)
+Lemma runes_concat (s : str) : concat (runes s) = s.
+Proof. apply runes_fuel_concat. unfold runes. lia. Qed.
+
+(* substring with offset 0 and "to the end" is the identity — e.g. _cut_col's whole-line cases *)
+Lemma substring_whole (s : str) : substring s 0 (-1) = Some s.
+Proof. unfold substring. simpl. f_equal. apply runes_concat. Qed.
